@@ -16,8 +16,8 @@ from pbt.core import R, Sub
 RULE = (
     "Strata: every single-field linear stepper class/variant with a non-amplifying coefficient "
     "sub-strategy (nu >= 0 scalar / per-axis / PSD matrix incl. singular, zeta >= 0, any velocity / "
-    "dispersivity sign, both mixing flags, generic/normalized/difficulty lists with a_0<=0, a_2>=0, a_4<=0, "
-    "a_6>=0 and arbitrary odd coefficients) and Wave x D x odd/even N. Hypothesis draws white-noise states "
+    "dispersivity sign, both mixing flags, generic/normalized/difficulty lists up to order 8 with a_0<=0, a_2>=0, a_4<=0, "
+    "a_6>=0 and arbitrary odd coefficients) and Wave (c in R incl. 0) x D x odd/even N, plus 1D production-size grids (512..6000). Hypothesis draws white-noise states "
     "(Nyquist content included) or Nyquist-free ones, L, dt in [1e-6, 1e6], rollouts of up to 50 steps. "
     "Claims at EVERY step: ||u_{j+1}|| <= ||u_j|| (1+1e-12); strictly dissipative configurations (dt nu "
     "kappa_min^2 >= 1e-9 by construction): every non-constant stored mode shrinks strictly; advection / "
